@@ -20,11 +20,23 @@ class C13(framework.PropertyCheck):
         for _ in range(n):
             N = rng.randint(2, 8)
             g = gen_expr.ExprGen(rng, None, virtual=False, funcs=False, n_max=N)
-            kind = rng.choice(['top', 'top', 'scope', 'group', 'groups'])
-            if kind == 'top':
+            kind = rng.choice(['top', 'top', 'scope', 'group', 'groups', 'topref'])
+            if kind == 'topref':
+                # ~ and # references in a definition made at top level are fixed there too (nothing is captured: the names stand for themselves)
+                body = rng.choice(['(+ ~top.cnt 1)', '(+ ~top.cnt ~top.d_valid@1)', '(&& #top.d_valid #top.d_ready)', '(- ~top.cnt (reval #top.e_valid -1))'])
+                define = f'(defsig tv {body})'
+                name = 'tv'
+                body = body.replace('~', '').replace('#', '')
+            if kind == 'topref':
+                pass
+            elif kind == 'top':
                 body = g.expr(rng.randint(1, 3))
-                if rng.random() < 0.3:
+                r0 = rng.random()
+                if r0 < 0.3:
                     body = f'(+ u0 {body})' if rng.random() < 0.5 else f'(if (> u0 3) {body} u0@1)'
+                elif r0 < 0.5:
+                    # no offset of its own, but built on a virtual signal that reads the neighbouring sample
+                    body = f'(+ (if u1 u1 -3) {body})'
                 define = f'(defsig vv {body})'
                 name = 'vv'
             elif kind == 'scope':
@@ -50,6 +62,8 @@ class C13(framework.PropertyCheck):
                     visits.append(['at', rng.randrange(N)])
                 elif r < 0.6:
                     visits.append(['rel', rng.randrange(N), rng.randint(-3, 3)])
+                elif r < 0.66:
+                    visits.append(['scoped', rng.randrange(N)])
                 elif r < 0.72:
                     visits.append(['find', rng.randrange(N)])
                 elif r < 0.8:
@@ -70,7 +84,8 @@ class C13(framework.PropertyCheck):
 
     def _plan(self, case):
         vf, _den = gen_trace.simple_vcd(random.Random(case['seed']), case['N'], sigs=gen_expr.SIGS)
-        steps = [('loadvcd', 't0', gen_trace.render(vf)), ('eval', 'eorg', '(defsig u0 (+ top.cnt (if (= top.clk 1) 2 0)))')]
+        steps = [('loadvcd', 't0', gen_trace.render(vf)), ('eval', 'eorg', '(defsig u0 (+ top.cnt (if (= top.clk 1) 2 0)))'),
+                 ('eval', 'eorg', '(defsig u1 (reval top.cnt 1))')]
         v, b = case['name'], case['body']
         marks = []
         if case.get('probe_before'):
@@ -95,6 +110,12 @@ class C13(framework.PropertyCheck):
                 steps.append(('eval', 'eorg', f'(step (- {vis[1]} INDEX))'))
                 marks.append(('pair', len(steps)))
                 steps.append(('eval', 'eorg', f'(list {v} {b})'))
+            elif k == 'scoped':
+                if vis[1] >= n_cur:
+                    continue
+                steps.append(('eval', 'eorg', f'(step (- {vis[1]} INDEX))'))
+                marks.append(('pair', len(steps)))
+                steps.append(('eval', 'eorg', f'(list (in-scope "top" {v}) {b} (in-group "top.e_" {v}))'))
             elif k == 'again':
                 marks.append(('pair', len(steps)))
                 steps.append(('eval', 'eorg', f'(list {v} {b} {v})'))
